@@ -50,7 +50,7 @@ func cmdVerify(args []string) {
 		}
 	}
 	var fis []*FuncInfo
-	for _, fi := range prog.funcs {
+	for _, fi := range prog.allFuncs() {
 		if fi.Contract == nil {
 			continue
 		}
